@@ -62,27 +62,34 @@ def run(ctx, rep):
                 div = [c for c in conds if re.search(r"checked_rem\(arg2, 4\) as Some\.0|\(arg2 Rem 4\)", c[0]) and c[1] == "eq" and c[2] == (0,)]
                 rep.check("R3.3", "%s:divisible-by-4" % vn, len(div) == 1, "Mode::%s: the accepting path lacks the `len %% 4 == 0` guard (conditions %s)" % (vn, conds), b.loc(),
                           sample={"mode": vn, "conditions": [list(c) for c in conds]})
-        # value definition on this variant's path
+        # value definition on this variant's path, compared bit by bit: size byte = len (Uncompressed) / len >> 2 (Compressed)
         phi = [c for c in an.casts if c["to"] == "u8" and not c["exp"]]
         if phi:
-            # operand local of the cast statement
+            import bits
             st = b.blocks[phi[0]["bb"]]["stmts"][phi[0]["idx"]]
-            src = st["rv"]["x"]
-            o = b.origin(src)
+            o = b.origin(st["rv"]["x"])
+            exprs = []
             if o[0] == "phi":
-                defs = [d for d in b.defs().get(o[1], []) if d[0] == "stmt" and d[1] in an.reachable()]
-                exprs = [fmt_origin(b.origin({"copy": {"l": 9999, "p": []}})) if False else d[3]["rv"] for d in defs]
-                desc = []
-                for d in defs:
-                    rv = d[3]["rv"]
-                    if rv["k"] == "use":
-                        desc.append(fmt_origin(b.origin(rv["x"])))
-                    elif rv["k"] == "bin":
-                        desc.append("(%s %s %s)" % (fmt_origin(b.origin(rv["l"])), rv["op"], fmt_origin(b.origin(rv["r"]))))
-                    else:
-                        desc.append(rv["k"])
-                expect = ["arg2"] if want.get(vn) == 255 else ["(arg2 Div 4)"]
-                rep.check("R3.3", "%s:size-value" % vn, desc == expect, "Mode::%s: size byte must be %s, found %s" % (vn, expect[0], desc), b.loc(), sample={"mode": vn, "value": desc})
+                for d in b.defs().get(o[1], []):
+                    if d[0] == "stmt" and d[1] in an.reachable():
+                        rv = d[3]["rv"]
+                        if rv["k"] == "use":
+                            exprs.append(b.origin(rv["x"]))
+                        elif rv["k"] == "bin":
+                            exprs.append(("bin", rv["op"], b.origin(rv["l"]), b.origin(rv["r"]), rv.get("lty")))
+                        else:
+                            exprs.append(("rv", rv["k"]))
+            else:
+                exprs = [o]
+
+            def leaf(x):
+                return ("len", 64) if x == ("arg", 2) else None
+            shift = 0 if want.get(vn) == 255 else 2
+            expect = [("f", "len", i + shift) if i + shift < 64 else 0 for i in range(64)]
+            got_bits = [bits.evaluate(e, 64, leaf) for e in exprs]
+            okv = len(got_bits) == 1 and got_bits[0][:10] == expect[:10]
+            rep.check("R3.3", "%s:size-value" % vn, okv, "Mode::%s: the size byte must be len%s; the expression(s) %s give bits %s" % (vn, "" if shift == 0 else " / 4", [fmt_origin(e) for e in exprs], [str(x) for x in (got_bits[0][:10] if got_bits else [])]),
+                      b.loc(), sample={"mode": vn, "value": [fmt_origin(e) for e in exprs]})
     rep.floor("R3.3", 12)
     encode_order(ctx, rep)
 
